@@ -775,6 +775,67 @@ def r05_10(ctx, prog, crate):
     ctx.anchor("R05.10", "per-iteration counts built from per-input totals", n, 1)
 
 
+def r05_11(ctx, prog, crate):
+    """Counter values are kept per kind and every access addresses the kind it was asked about: info()/info_mut() index
+    the per-kind array by their own kind argument; counts/uses_input_counts/mean_count/get_input_count look up the kind
+    they were given; push_counter stores the pushed counter's own count in the slot of that same counter's kind;
+    get_input_count returns what that kind's generator returns for the given input (None only without a generator)."""
+    from lib.patheval import PathEval
+    from lib.symexpr import Sym
+    CC = "counter::collection::CounterCollection::"
+    bodies = {n: prog.body(CC + n, crate) for n in ("info", "info_mut", "counts", "uses_input_counts", "mean_count", "get_input_count", "push_counter")}
+    if not ctx.anchor("R05.11", "CounterCollection accessors", sum(1 for b in bodies.values() if b), 7):
+        return
+    for b in bodies.values():
+        ctx.saw(b)
+    for n in ("info", "info_mut"):
+        b = bodies[n]
+        S = Sym(b)
+        refs = [s for bi, si, s in b.stmts() if s["k"] == "assign" and s["rv"]["k"] == "ref" and any(pr["k"] == "index" for pr in s["rv"]["p"]["proj"])]
+        ok = len(refs) == 1 and refs[0]["rv"]["p"]["l"] == 1 and place_fields(refs[0]["rv"]["p"])[:1] == ("info",)
+        idx = None
+        if ok:
+            pr = [p_ for p_ in refs[0]["rv"]["p"]["proj"] if p_["k"] == "index"][0]
+            idx = S.local(pr["l"])
+            ok = idx == ("discr", ("arg", 2, ()))
+        ctx.check(ok and not b.loops and len([c for c in b.live_calls()]) == 0, "R05.11", [n, "indexed-by-own-kind"], "CounterCollection::%s indexes the per-kind array by %s, expected `counter_kind as usize`" % (n, idx), b.where(0))
+    for n in ("counts", "uses_input_counts", "mean_count", "get_input_count"):
+        b = bodies[n]
+        sums = PathEval(b).run()
+        if not ctx.check(bool(sums), "R05.11", [n, "readable"], "cannot summarise CounterCollection::%s" % n, b.where(0)):
+            continue
+        for s in sums:
+            look = [c for c in s.calls if c[0] in (CC + "info", CC + "info_mut", CC + "counts")]
+            ok = len(look) == 1 and look[0][1][1] == ("arg", 2, ()) and look[0][1][0] in (("sptr", (1, ())), ("arg", 1, ()), ("ptr", (1, ())))
+            ctx.check(ok, "R05.11", [n, "looks-up-the-kind-it-was-given"], "CounterCollection::%s looks up %s" % (n, [c[1][1:] for c in look]), b.where(s.blocks[-1]))
+        if n == "get_input_count":
+            somes = [s for s in sums if s.ret[0] == "adt" and s.ret[2] == "Some"]
+            ok = len(somes) == 1 and len(sums) == 2
+            if ok:
+                v = somes[0].ret[3][0]
+                ok = v[0] == "site" and v[1].endswith("Fn<Args>>::call") and "count_input" in str(v[3][0]) and v[3][1] == ("tuple", (("ptr", (3, ())),)) or \
+                    (v[0] == "site" and v[1].endswith("Fn<Args>>::call") and "count_input" in str(v[3][0]) and "3" in str(v[3][1]))
+            ctx.check(ok, "R05.11", [n, "generator-of-that-kind-on-that-input"], "get_input_count returns %s" % ([s.ret for s in sums],), b.where(0))
+        if n == "mean_count":
+            r = sums[0].ret
+            inner = r
+            while inner[0] == "cast":
+                inner = inner[2]
+            ok = len(sums) == 1 and inner[0] == "div" and "Iterator::sum" in str(inner[1]) and "slice::len" in str(inner[2]) and \
+                str(inner[1]).count("CounterCollection::counts', 0") >= 1 and str(inner[2]).count("CounterCollection::counts', 0") >= 1
+            ctx.check(ok, "R05.11", [n, "sum-over-len-of-the-same-list"], "mean_count returns %s" % (r,), b.where(0))
+    b = bodies["push_counter"]
+    sums = PathEval(b).run()
+    if ctx.check(bool(sums) and len(sums) == 1, "R05.11", ["push_counter", "readable"], "cannot summarise push_counter", b.where(0)):
+        s = sums[0]
+        im = [c for c in s.calls if c[0] == CC + "info_mut"]
+        pu = [c for c in s.calls if c[0] == "std::vec::Vec::push"]
+        A = "counter::any_counter::AnyCounter::"
+        ok = len(im) == 1 and len(pu) == 1 and im[0][1][1][0] == "site" and im[0][1][1][1] == A + "known_kind" and im[0][1][1][3] == (("arg", 2, ()),) and \
+            pu[0][1][1][0] == "site" and pu[0][1][1][1] == A + "count" and pu[0][1][1][3] == (("arg", 2, ()),) and "info_mut" in str(pu[0][1][0]) and "counts" in str(pu[0][1][0])
+        ctx.check(ok, "R05.11", ["push_counter", "own-count-into-own-kind"], "push_counter: info_mut(%s), push(%s)" % ([c[1][1] for c in im], [c[1] for c in pu]), b.where(0))
+
+
 def r05_9(ctx, prog, crate):
     """Per-sample counter values stay aligned with the samples: installing an input counter empties its own kind's list
     unconditionally (a left-over constant count would shift every per-sample value by one) and touches no other kind;
@@ -788,6 +849,7 @@ def run(ctx, prog, crate):
     r05_8(ctx, prog, crate)
     r05_9(ctx, prog, crate)
     r05_10(ctx, prog, crate)
+    r05_11(ctx, prog, crate)
     r05_7(ctx, prog, crate)
     r05_6(ctx, prog, crate)
     r05_5(ctx, prog, crate)
